@@ -36,6 +36,10 @@ func TestCheck(t *testing.T) {
 	// client configured: the high-water mark can then lie inside the snapshot file's TXID range.
 	jobs = append(jobs, hist.Job{Name: "journal-backup-replica-with-snapshot-file", Cfg: hist.Config{PageSize: 512, Start: 3, Backup: true, R2Starts: "absent", Alphabet: []string{"age", "hwm", "sweep", "tx:t1"},
 		Prelude: []string{"part:R1", "tx:a:t1", "tx:a:g1", "hwm:P:p", "retain", "heal:R1", "tx:a:t1"}}, Depth: 3, Budget: 60 * time.Second})
+	// Transactions forwarded by a halt-lock holder: the next one, and files that overlap the chain, leave a gap or repeat the
+	// last transaction; whatever is sent, the log stays one chain (and restarts, sweeps and a joining replica still work).
+	jobs = append(jobs, hist.Job{Name: "journal-forwarded-files", Cfg: hist.Config{PageSize: 512, Start: 3, R2Starts: "absent", Alphabet: []string{"fwd:ok", "fwd:overlap", "fwd:gap", "fwd:again", "tx:t1", "restartP", "sweep"},
+		Prelude: []string{"tx:a:t1", "tx:a:g1"}}, Depth: 3, Budget: 60 * time.Second})
 	if run.Thorough() {
 		jobs[0].Depth, jobs[0].Budget = 5, 20*time.Minute
 		jobs[1].Depth, jobs[1].Budget = 5, 20*time.Minute
